@@ -199,7 +199,14 @@ def rule_c(ctx):
 
 WITNESS = ['c16']  # doctest filters in /verif/witness (thorough tier)
 
+def rule_d(ctx):
+    """messages sent to a model before its init are kept in its mailbox"""
+    from . import c02, c12
+    c02.rule_a(ctx)
+    c12.rule_a(ctx)
+
 RULES = [
+    ("C16.d", "messages sent before init are enqueued (send completes only when enqueued; slot hand-over discipline)", rule_d),
     ("C16.a", "model task = init().await once, then the receive loop on the initialised model", rule_a),
     ("C16.b", "who may call Model::init / add_model / recv", rule_b),
     ("C16.c", "qualified names; one name value for context, name table and observer", rule_c),
